@@ -224,8 +224,8 @@ func (r *recorder) newConn(fd int, modelled bool) int {
 }
 
 func (r *recorder) allIdle() bool {
-	if r.exited {
-		return true
+	if r.exited || r.shutdown {
+		return true // the loop is exiting (or gone): it will not come back to a blocking wait
 	}
 	if !r.idle {
 		return false
@@ -366,6 +366,9 @@ func (r *recorder) maybeInject(c *vunix.Call, name string) {
 			if cid, ok := r.fdCid[fd]; !ok || r.gidM[cid] != in.cid {
 				continue
 			}
+		}
+		if in.kind == "eagain" && name == "wr" && len(c.Buf) == 0 && len(concatIov(c.Iov)) == 0 {
+			continue // the kernel never answers a zero-length write with EAGAIN: not a coherent fault
 		}
 		if in.kind == "short" {
 			// shorten the transfer the real call may perform
